@@ -8,11 +8,18 @@ derivative and reading its payoff - and compares what the object hands out after
 
   clauses      add_clause a, b, list, delist           -> named_clauses() == [(a, c1), (b, c2)], clauses() == [c1, c2], pricer None, cost 0.0
   relist       add_clause, list(p, c)                   -> same clauses, spot == p(self), cost == c, is_listed
-  relist-zero  list(p0, 0.5), list(p, 0.0)              -> spot == p(self), cost == 0.0
+  relist-zero  list(p0, 0.5), spot, list(p, 0.0)        -> spot == p(self), cost == 0.0
   rebind       ul(), payoff(), d.underlier = u2         -> ul() is u2, d.underlier is u2, underliers() == [u2], payoff() reads u2 only
   re-register  ul(), register_underlier(name, u2)       -> ul() is u2, underliers() == [u2]
   second       register_underlier("other", u3)          -> underliers() == [u1, u3], ul(1) is u3, ul(0) is u1
   fold         payoff(), add_clause a, payoff(), add b  -> c1(self, payoff_fn()), then c2(self, c1(self, payoff_fn()))
+
+The same is done for the buffer registry of the primary instruments (`register_buffer`, `spot`, `get_buffer`, attribute access, `buffers()`,
+`named_buffers()`), which the other analyses read through summaries as well:
+
+  buffers      register spot=x, read, register aux=v, spot=y -> spot is y cast to (device, dtype) of the instrument, get_buffer("spot") and the
+                                                             attribute agree, names are [spot, aux] in first-registration order, one buffer each
+  resimulate   simulate(N), read spot, simulate(M)       -> the second spot is a function of M only, the first of N only, same buffer names
 
 A lazily filled cache that one of the writers forgets to invalidate, a reset that takes a registry with it, a reader that keeps the first
 answer: each shows up as a history whose last reads do not match.  Every non-raising path of a history is judged; a history without any
@@ -53,6 +60,7 @@ def history(cls, u1, u2, u3, c1, c2, pricer, cost):
 def history(cls, u1, u2, u3, c1, c2, pricer, cost):
     d = cls(u1)
     d.list(c1, 0.5)
+    first = d.spot
     d.list(pricer, 0.0)
     return d, d.spot, d.cost
 ''',
@@ -221,3 +229,107 @@ def histories_rule(ctx, run, rule, only=None, classes=None):
 def _blame(prog, name, q):
     """the report is anchored at the method the history turns on; the message carries the history itself"""
     return prog.lookup_method(q, {"clauses": "delist", "relist": "list", "relist-zero": "list", "rebind": "ul", "re-register": "register_underlier", "second": "register_underlier", "fold": "payoff"}[name])
+
+
+PRIMARY_HISTORIES = {
+    "buffers": '''
+def history(cls, extra, x, y, v, N, M, h):
+    s = cls(*extra)
+    s.register_buffer("spot", x)
+    a = s.spot
+    s.register_buffer("aux", v)
+    s.register_buffer("spot", y)
+    return a, s.spot, s.get_buffer("spot"), s.aux, [n for n, _ in s.named_buffers()], list(s.buffers()), s.device, s.dtype
+''',
+    "resimulate": '''
+def history(cls, extra, x, y, v, N, M, h):
+    s = cls(*extra)
+    s.simulate(n_paths=N, time_horizon=h)
+    a = s.spot
+    n1 = [n for n, _ in s.named_buffers()]
+    s.simulate(n_paths=M, time_horizon=h)
+    return a, s.spot, n1, [n for n, _ in s.named_buffers()], len(list(s.buffers()))
+''',
+}
+
+
+def _is_cast_of(t, x, dev, dt):
+    """t is x converted to the instrument's device and dtype (or x itself where no conversion is made)"""
+    if t is x or t == x:
+        return True
+    if not (isinstance(t, Op) and t.op == "to" and t.args and t.args[0] == x):
+        return False
+    targets = list(t.args[1:]) + [v for _, v in t.kw]
+    return len(targets) == 2 and any(a == dev for a in targets) and any(a == dt for a in targets)
+
+
+def _judge_primary(name, v):
+    bad = []
+    if name == "buffers":
+        a, b, g, aux, names, bufs, dev, dt = v
+        x, y, vv = Sym("x", ("tensor",)), Sym("y", ("tensor",)), Sym("v", ("tensor",))
+        if not _is_cast_of(a, x, dev, dt):
+            bad.append(f"spot after register_buffer('spot', x) is {str(a)[:80]}")
+        if not _is_cast_of(b, y, dev, dt):
+            bad.append(f"spot after registering y under the same name is {str(b)[:80]}")
+        if g != b:
+            bad.append("get_buffer('spot') and .spot disagree")
+        if not _is_cast_of(aux, vv, dev, dt):
+            bad.append(f"attribute access to the buffer 'aux' gives {str(aux)[:80]}")
+        if list(names) != ["spot", "aux"]:
+            bad.append(f"buffer names {names}, registered spot, aux, spot")
+        if list(bufs) != [b, aux]:
+            bad.append(f"buffers() yields {len(bufs)} tensors, expected the current spot and aux once each")
+    elif name == "resimulate":
+        a, b, n1, n2, nb = v
+        sa = {s.name for s in walk(a) if isinstance(s, Sym)}
+        sb = {s.name for s in walk(b) if isinstance(s, Sym)}
+        if "N" not in sa or "M" in sa:
+            bad.append("the first simulation does not have the requested number of paths")
+        if "M" not in sb or "N" in sb:
+            bad.append("after simulate(n_paths=M) the spot still depends on the previous simulation (n_paths=N)")
+        if list(n1) != list(n2) or nb != len(n2):
+            bad.append(f"buffer names change between simulations: {n1} then {n2} ({nb} buffers)")
+    return bad
+
+
+def primary_histories_rule(ctx, run, rule, only=None):
+    from .primaries import primary_classes
+    prog = ctx.prog
+    interp = Interp(prog, max_depth=20)
+    for k in list(interp.intrinsics):
+        if ".BaseDerivative." in k or ".BasePrimary." in k:
+            interp.intrinsics.pop(k)
+    interp.faithful_registry = True
+    classes = primary_classes(prog)
+    names = [n for n in PRIMARY_HISTORIES if only is None or n in only]
+    run.require(rule, len(names) * len(classes))
+    for q in classes:
+        short = q.rsplit(".", 1)[-1]
+        init = prog.lookup_method(q, "__init__")
+        required = [a.arg for a in init.node.args.args[1:len(init.node.args.args) - len(init.node.args.defaults)]] if init else []
+        extra = tuple(Sym(n, ("callable",)) if n.endswith("_fn") else Sym(n, ("float",)) for n in required)
+        for name in names:
+            fi = FuncInfo("synthetic.primary_history_" + name, "pfhedge.instruments.primary.base", ast.parse(PRIMARY_HISTORIES[name]).body[0])
+            args = dict(extra=extra, x=Sym("x", ("tensor",)), y=Sym("y", ("tensor",)), v=Sym("v", ("tensor",)), N=Sym("N", ("int",)), M=Sym("M", ("int",)), h=Sym("h", ("float",)))
+            try:
+                allres = interp.explore(fi, [ClassRef(q)], args, max_paths=100)
+            except Unsupported as ex:
+                raise AnalysisError(f"history '{name}' on {short}: {ex}")
+            res = [r for r in allres if not r["raises"]]
+            bad = []
+            if not res:
+                bad.append("the history ends in an exception on every path: " + "; ".join(sorted({str(getattr(r["raises"], "exc", r["raises"]))[:80] for r in allres}))[:200])
+            for r in res:
+                try:
+                    bad += _judge_primary(name, r["value"])
+                except (TypeError, ValueError) as ex:
+                    raise AnalysisError(f"history '{name}' on {short}: result not in the expected form ({ex})")
+            bad = sorted(set(bad))
+            run.oblige(rule, f"{short}: history '{name}'", not bad, "; ".join(bad) or "reads return what the history registered")
+            if bad:
+                where = prog.lookup_method(q, "register_buffer" if name == "buffers" else "simulate")
+                run.fail(Finding(rule, where.qualname if where else q, f"{short}, history '{name}': " + "; ".join(bad)[:300],
+                                 "what the instrument hands out after this call history is not what was registered last",
+                                 file=str(prog.modules[(where or prog.classes[q]).module].path), line=(where.node if where else prog.classes[q].node).lineno, case=name))
+    run.functions |= {f for f in interp.visited if f in prog.functions}
